@@ -241,6 +241,15 @@ func numericAliases(each func(key []byte, counter uint64, digits int, alias stri
 					each(key, counter, digits, fmt.Sprintf("%0*d", digits, a))
 				}
 			}
+			// and by 2^63 / 2^64 modulo 10^digits: a wrapped unsigned difference reduced modulo the code range (C06-r18a)
+			h63 := (uint64(1) << 63) % limit
+			for _, m := range []uint64{h63, h63 * 2 % limit} {
+				for _, a := range []uint64{(v + m) % limit, (v + limit - m) % limit} {
+					if a != v {
+						each(key, counter, digits, fmt.Sprintf("%0*d", digits, a))
+					}
+				}
+			}
 		}
 	}
 }
